@@ -23,6 +23,9 @@ DEMO="$(cat "$SD/demo.cmd")"
 cd "$WT"
 say "demo on unchanged tree ($HEAD_SHA): $DEMO"
 ( eval "$DEMO" ) >> "$LOG" 2>&1; D0=$?
+# a demonstration that depends on timing may fail on a loaded machine: it counts as passing on the unchanged tree
+# if one of three runs passes (the with-patch run below must still fail)
+for _try in 2 3; do [ $D0 = 0 ] && break; say "demo failed on the unchanged tree (exit $D0), retry $_try"; ( eval "$DEMO" ) >> "$LOG" 2>&1; D0=$?; done
 say "demo exit on unchanged tree: $D0"
 if ! git apply "$SD/patch.diff" 2>>"$LOG"; then say "PATCH DOES NOT APPLY"; APPLY=0; else APPLY=1; fi
 D1=-1; SUITE="skipped"; REGR="[]"
